@@ -137,6 +137,58 @@ def w_ascii_as_5322(exe, build_name, k, prefix_idx):
     return part
 
 
+def structured_local_parts():
+    """1-4 words, each an atom / atom with an RFC 20 character / quoted / quoted with an RFC 20 character / quoted with blanks or
+    controls - the shapes whose treatment the three options change."""
+    words = [b"a", b"b1", b"#", b"a{b", b"~", b'"a"', b'"#"', b'"a b"', b'" a"', b'"a\x0bb"', b'"\x0c"', b'"a\tb"', b'"\\#"', b'""', "é".encode(), b'"a\x01"']
+    out = set()
+    for n in range(1, 4):
+        for ws in itertools.product(words, repeat=n):
+            out.add(b".".join(ws))
+    for a in words:
+        for b in words:
+            out.add(a + b".x." + b)
+            out.add(b'"q".' + a + b"." + b + b'."r"')
+    return sorted(out)
+
+
+def w_oracle_in_build(exe, c, strings, src):
+    """R-LOCAL parameterised with the build's options judges the four scanners inside that build.  Scope of the statement: with
+    RFC6531_FOLLOW_RFC5322 only *pure-ASCII* local parts are re-specified (as mode 5322); for a non-ASCII local part that contains
+    whitespace or control bytes the grammar verdict is not judged - but whatever the build, mode 6531 never accepts ill-formed
+    UTF-8 (the default build rejects it and no option documents otherwise)."""
+    from .. import localgen as LG
+    opts = frozenset(x for x in c if x != OUS)
+    part = {"counters": collections.Counter(), "viol": [], "samples": [], "distinct": 0, "sets": {}}
+    strings = [b for b in strings if b and b"\x00" not in b]
+    recs, crashes = driver.run_lines_resilient(exe, ["L " + driver.hx(b) for b in strings])
+    for idx, sig, err in crashes:
+        b = strings[idx] if idx >= 0 else b""
+        part["viol"].append(("%s/crash/%s" % (vname(c), sig), {"local_part": core.b2s(b), "hex": b.hex()}, {"stderr": err[-1500:]}))
+    for b, r in zip(strings, recs):
+        if r is None:
+            continue
+        for mi, mode in enumerate(("822", "5321", "5322", "6531")):
+            got = r[mi] == 0
+            part["counters"]["edge-comparisons"] += 1
+            if mode == "6531" and O5322 in opts and max(b) >= 0x80 and any(ch < 0x21 or ch == 0x7f for ch in b):
+                part["counters"]["oracle-in-build.utf8-only"] += 1
+                if got and OL.utf8_symbols(b) is None:
+                    part["viol"].append(("%s/6531/accepts-ill-formed-utf8" % vname(c), {"build": sorted(c), "local_part": core.b2s(b), "hex": b.hex()},
+                                         {"rc": r[mi], "source": src}))
+                continue
+            part["counters"]["oracle-in-build.judged"] += 1
+            exp = OL.accepts(mode, b, opts)
+            if got != exp:
+                key = ("accepts-invalid/%s" % LG.fail_point(mode, b, opts)) if got else ("rejects-valid/err%d" % -r[mi])
+                part["viol"].append(("%s/%s/%s" % (vname(c), mode, key), {"build": sorted(c), "mode": mode, "local_part": core.b2s(b), "hex": b.hex()},
+                                     {"rc": r[mi], "reference_accepts": exp, "source": src}))
+    part["distinct"] = len(set(strings))
+    if strings:
+        part["samples"].append({"source": src, "build": vname(c), "local_part": core.b2s(strings[len(strings) // 2][:80])})
+    return part
+
+
 def w_domain(exes, k, prefix_idx):
     part = {"counters": collections.Counter(), "viol": [], "samples": [], "distinct": 0, "sets": {}}
     prefix = b"".join(DTOK[i] for i in prefix_idx)
@@ -282,6 +334,16 @@ def main(tier, seed):
     for c in (frozenset([O5322]), frozenset([O5322, OUS])):
         for p in itertools.product(range(len(ATOK)), repeat=2):
             jobs.append((w_ascii_as_5322, (exes[c], vname(c), ka - 2, p)))
+    from .. import localgen as LG
+    slp = structured_local_parts()
+    for c in combos():
+        fo = frozenset(x for x in c if x != OUS)
+        strings = sorted(set(slp) | set(LG.conformance_strings("6531", fo)) | set(LG.byte_suite("6531", fo)[::1 if tier != "quick" else 2]))
+        for i in range(0, len(strings), 6000):
+            jobs.append((w_oracle_in_build, (exes[c], c, strings[i:i + 6000], "oracle")))
+        rr = random.Random(seed * 131 + len(c))
+        rs = LG.random_strings("6531", rr, 150 if tier == "quick" else 1500, 400, fo)
+        jobs.append((w_oracle_in_build, (exes[c], c, rs, "random")))
     kd = 6 if tier == "quick" else 7
     jobs.append((w_domain, (exes, 1, ())))
     for p in itertools.product(range(len(DTOK)), repeat=2):
